@@ -64,3 +64,6 @@ Definition run (classes : list Z) (C : Z) (w : wcase) : option (list Z) :=
   | WClasswisePercent s e => classwise_percent classes C s e
   | _ => run_g float_ops classes C w
   end.
+
+(* wrapper wB constructed on top of wrapper wA *)
+Definition stacked := stacked_with run.
